@@ -115,7 +115,19 @@ def run(ck):
     c1 = copy.deepcopy(body[:idx + 3]); c1[idx]["out"] = str(int(c1[idx]["out"]) ^ 1)
     idw = next(i for i, e in enumerate(body) if e["k"] == "WriteBitString")
     c2 = copy.deepcopy(body[:idw] + body[idw + 1:idw + 6])
-    for nm, c, want in (("C->S: flipped logged PickUint result", c1, idx + 1), ("C->S: dropped WriteBitString event", c2, idw + 1)):
+    # (c) an Append that lost the last bit of the nested string
+    allevs = [e for tp in traces for e in vlib.read_ndjson(tp)]
+    napp = sum(1 for e in allevs if e.get("k") == "Append")
+    ngrown = sum(1 for e in allevs if e.get("k") in ("ReadBits", "ReadRemainingBits") and e.get("err") == "" and e.get("out"))
+    if napp < 20 or ngrown < 20:
+        raise Infra("only %d Append events / %d grown read results were recorded" % (napp, ngrown))
+    ck.extra["append_events"], ck.extra["read_results_grown"] = napp, ngrown
+    ida = next(i for i, e in enumerate(body) if e["k"] == "Append" and len(e["bits"]) >= 2 and "bin" in e)
+    c3 = copy.deepcopy(body[:ida + 1]); c3[ida]["bin"] = c3[ida]["bin"][:-1]
+    if c3[ida]["avail"] > 0:
+        c3[ida]["avail"] -= 1
+    for nm, c, want in (("C->S: flipped logged PickUint result", c1, idx + 1), ("C->S: dropped WriteBitString event", c2, idw + 1),
+                        ("C->S: Append that dropped the last bit", c3, ida + 1)):
         p = os.path.join(ck.work, "canary_%d.ndjson" % want)
         vlib.write_ndjson(p, c + [{"k": "End"}])
         st, tr, ok = ck.states, ck.transitions, ck.traces_ok
